@@ -182,7 +182,10 @@ Definition observe_go (os : ostate) (d : db) : db * ostate * list op * option (o
   | None, OReg => let ops := observe_reg_ops os in
                   let '(d', os', ops') := observe_run 4 os (fst (run d ops)) ops in
                   (d', os', ops', None, true)
-  | None, OHold c => let '(d', os', ops) := observe_run 4 os d [] in (d', os', ops, Some c, true)
+  | None, OHold c =>
+    (* c is reported now; should the run below not reach a callback or the select (out of fuel: never, three turns
+       suffice), the goroutine counts as still running: a waiter on an already closed channel *)
+    let '(d', os', ops) := observe_run 4 (oset os (OWait 0)) d [] in (d', os', ops, Some c, true)
   | _, _ => (d, os, [], None, false)
   end.
 
